@@ -254,10 +254,11 @@ class MinerWatcher:
             # we didn't mine the block
             return
 
+        # add (and thereby validate) the block first, so that the state served to peers actually contains it
+        self.coinstate = self.coinstate.add_block(block, int(time()))
+
         self.network_thread.local_peer.chain_manager.set_coinstate(self.coinstate)
         self.network_thread.local_peer.network_manager.broadcast_block(block)
-
-        self.coinstate = self.coinstate.add_block(block, int(time()))
 
         self.network_thread.local_peer.disk_interface.save_block(block)
         self.network_thread.local_peer.disk_interface.flush_blocks()
